@@ -534,7 +534,7 @@ def step (d : DSt) (ts : List String) (impl : String) : DSt × String × String 
     | .run =>
       let wop? : Option WOp := match parseOp ts with
         | some op => some (.base op)
-        | none => if d.kind = 3 then parseRootOp ts else none
+        | none => if d.kind = 3 then parseRootOp ts else if d.kind = 4 ∧ ts = ["rootclose"] then some .rootClose else none
       match wop? with
       | none => (d, "bad-op", "")
       | some wop =>
@@ -557,6 +557,8 @@ def step (d : DSt) (ts : List String) (impl : String) : DSt × String × String 
               ({ d with st := st', status := if op = Op.destroy || st'.dead then .dead else .run }, "log" ++ showSegment st'.log d.st.log)
             | .ub w => ({ d with status := .broken w }, "ub:" ++ w.replace " " "_")
             | .outOfFuel => ({ d with status := .broken "fuel" }, "out-of-fuel"))
+          -- win: `tickit_window_close` of the owner only sets `is_closed` (a root window has no parent): its bindings stay
+          | .rootClose => (d, "log")
           | _ => (d, "bad-op")
         -- specification, on the implementation's observation
         let begin : Spec.S → Spec.S := match wop with
